@@ -44,6 +44,8 @@ def reserialise(pk, rng, how):
             elif how == 'default-namespace': kw = {'prefixes': std, 'default_ns': tree[1][0]}
             elif how == 'default-namespace-text': kw = {'prefixes': std, 'default_ns': P.NS['text']}
             elif how == 'newline-declarations': kw = {'prefixes': std, 'newline_decls': True}
+            elif how == 'bare-newline-declarations': kw = {'prefixes': std, 'newline_decls': '\n'}       # a blank after the element name, then nothing but line feeds
+            elif how == 'tab-declarations': kw = {'prefixes': std, 'newline_decls': '\t'}
             elif how == 'local-declarations': kw = {'prefixes': std, 'local_decls': True}
             elif how == 'spaced-declarations': kw = {'prefixes': std, 'spaced_eq': True}
             else: kw = {'prefixes': std}
@@ -62,7 +64,7 @@ def add_attrs(t, rng, depth=0):
 
 def mutate(pk, rng, how):
     """bytes of a mutated package, or None when the mutation does not apply"""
-    if how in ('rename-prefixes', 'default-namespace', 'default-namespace-text', 'newline-declarations', 'local-declarations', 'spaced-declarations', 'plain-reserialise', 'foreign-attributes'):
+    if how in ('rename-prefixes', 'default-namespace', 'default-namespace-text', 'newline-declarations', 'bare-newline-declarations', 'tab-declarations', 'local-declarations', 'spaced-declarations', 'plain-reserialise', 'foreign-attributes'):
         m = reserialise(pk, rng, how)
         return None if m is None else L.repack(pk, members=m)
     if how == 'empty-media-types':
@@ -105,7 +107,7 @@ def mutate(pk, rng, how):
     return None
 
 MUTATIONS = ['rename-prefixes', 'default-namespace', 'default-namespace-text', 'newline-declarations', 'local-declarations', 'spaced-declarations', 'empty-media-types', 'plain-reserialise',
-             'foreign-attributes', 'manifest-reorder', 'extra-members', 'renumber-objects']
+             'foreign-attributes', 'manifest-reorder', 'extra-members', 'renumber-objects', 'bare-newline-declarations', 'tab-declarations']
 
 def synthetic(rng, g):
     """a package written without odfpy from a schema-directed random document"""
